@@ -132,8 +132,8 @@ fn check_top(c: &TOp) -> CaseResult {
         }
         "pow" => {
             if level == 12 {
-                // Fp12::pow demands e < N - 1
-                Some(ar.pow(&(&e % (&pr.n - 1u32))))
+                // Fp12::pow demands e <= N - 1
+                Some(ar.pow(&(&e % &pr.n)))
             } else if level == 1 {
                 Some(ar.pow(&e))
             } else {
@@ -232,7 +232,7 @@ fn check_top(c: &TOp) -> CaseResult {
         (12, "inv") => ref_f12(&a12.fp_inv()),
         (12, "double") => ref_f12(&a12.fp_double()),
         (12, "triple") => ref_f12(&a12.fp_triple()),
-        (12, "pow") => ref_f12(&hk::fp12_pow(&a12, &to_limbs(&(&e % (&pr.n - 1u32))))),
+        (12, "pow") => ref_f12(&hk::fp12_pow(&a12, &to_limbs(&(&e % &pr.n)))),
         (12, "frobenius") => ref_f12(&hk::fp12_frobenius(&a12)),
         (12, "frobenius2") => ref_f12(&hk::fp12_frobenius2(&a12)),
         (12, "frobenius3") => ref_f12(&hk::fp12_frobenius3(&a12)),
@@ -776,6 +776,41 @@ pub fn run(ctx: &Ctx) {
         }
         v
     }, check_nop);
+    ctx.exhaustive("modn_crafted_products_and_inverses", "mod_n_mul with operands crafted so that the integer product a*b lands on chosen targets: just above N, 2N, kN (s * (ceil(T/s) + t) for small s, t), around 2^256, 2^255, N + 2^190 (a product that fits 256 bits, shares its top limb with N and still needs one subtraction); a = isqrt(N)+-2; mod_n_inv of values whose inverse is short or sparse (inverses of 2, 3, 2^64, 2^128, 2^192-1, boundary-limb values), and inv(inv(x)) == x", || {
+        let n = &pr.n;
+        let mut v = Vec::new();
+        let mut targets: Vec<BigUint> = vec![n.clone(), n + 1u32, n * 2u32, n * 3u32, BigUint::one() << 256, BigUint::one() << 255, n + (BigUint::one() << 190), n + (BigUint::one() << 128), (n * 2u32) + (BigUint::one() << 100)];
+        targets.push(((BigUint::from(0xB640000002A3A6F2u64)) << 192) - 1u32); // the top of the window that shares N's top limb
+        for t in &targets {
+            for s in [2u32, 3, 5, 7, 65537] {
+                for dt in 0..3u32 {
+                    let b = (t + (s - 1)) / s + dt;
+                    if &b < n {
+                        v.push(NOp { op: 2, a: gen::hex32(&BigUint::from(s)), b: gen::hex32(&b) });
+                        v.push(NOp { op: 2, a: gen::hex32(&b), b: gen::hex32(&BigUint::from(s)) });
+                    }
+                }
+            }
+        }
+        let rt = n.sqrt();
+        for d in 0..5u32 {
+            for x in [&rt + d, &rt - d] {
+                v.push(NOp { op: 2, a: gen::hex32(&x), b: gen::hex32(&x) });
+                v.push(NOp { op: 4, a: gen::hex32(&x), b: gen::hex32(&BigUint::from(2u32)) });
+            }
+        }
+        // inverses that come out short or sparse: inv(y) for y = x^-1 with x small / boundary-limbed
+        let mut xs: Vec<BigUint> = vec![BigUint::from(2u32), BigUint::from(3u32), BigUint::from(65537u32), BigUint::one() << 64, BigUint::one() << 128, (BigUint::one() << 192) - 1u32, BigUint::one() << 192, (BigUint::one() << 64) - 1u32];
+        xs.extend(gen::boundary_limb_values(n).into_iter().filter(|x| x.bits() > 1).step_by(7));
+        for x in xs {
+            if let Some(y) = mod_inv(&x, n) {
+                v.push(NOp { op: 3, a: gen::hex32(&y), b: gen::hex32(&BigUint::one()) });
+                v.push(NOp { op: 3, a: gen::hex32(&x), b: gen::hex32(&BigUint::one()) });
+            }
+        }
+        v
+    }, check_nop);
+
     ctx.generated("modn_generated", "proptest (operation, a, b) modulo N from the edge-biased generator", ctx.tier.pick(40_000, 600_000), || {
         (0..5u8, gen::scalar256(&r9::params().n), gen::scalar256(&r9::params().n)).prop_map(|(op, a, b)| NOp { op, a, b })
     }, check_nop);
@@ -901,6 +936,25 @@ pub fn run(ctx: &Ctx) {
         }
         v
     }, check_g2_mul);
+    ctx.exhaustive("pow_exponent_edges", "Fp pow and Fp12 pow with exponents 0, 1, 2, 3, N-3, N-2, N-1 (the largest exponent Fp12::pow admits), p-2, p-1 (Fp only), 2^255, 2^256-1 (Fp only)", || {
+        let pow_op = T_OPS.iter().position(|o| *o == "pow").unwrap() as u8;
+        let n = &r9::params().n;
+        let p = r9::p_static();
+        let mut v = Vec::new();
+        let es12: Vec<BigUint> = vec![BigUint::zero(), BigUint::one(), BigUint::from(2u32), BigUint::from(3u32), n - 3u32, n - 2u32, n - 1u32];
+        let mut es1 = es12.clone();
+        es1.extend([p - 2u32, p - 1u32, BigUint::one() << 255, (BigUint::one() << 256) - 1u32]);
+        for (level, es) in [(12u8, es12), (1u8, es1)] {
+            for (i, e) in es.iter().enumerate() {
+                for t in 0..3u64 {
+                    let comp = |u: u64| (0..12u64).map(|j| Hex(expand_bytes((level as u64) << 20 | (i as u64) << 12 | t << 8 | u << 4 | j, 32))).collect::<Vec<_>>();
+                    v.push(TOp { level, op: pow_op, a: comp(1), b: comp(2), e: gen::hex32(e) });
+                }
+            }
+        }
+        v
+    }, check_top);
+
     ctx.exhaustive("pow_zero_limb_exponents", "Fp pow and Fp12 pow with exponents that have an all-zero 64-bit limb below a non-zero limb", || {
         let pow_op = T_OPS.iter().position(|o| *o == "pow").unwrap() as u8;
         let mut v = Vec::new();
